@@ -560,7 +560,7 @@ Qed.
 
 (** root case of copy / move: [finish_add] with the empty path *)
 Lemma finish_add_root object value cs :
-  PatchDefs.finish_add object value [] cs = Ok (0, PatchDefs.set_key value None).
+  PatchDefs.finish_add object value [] cs = Ok (0, PatchDefs.unnamed value).
 Proof. reflexivity. Qed.
 
 (** root case of add / replace: path "" and a "value" member whose duplicate is [d] *)
@@ -570,7 +570,7 @@ Lemma apply_patch_root_add_replace object patch (cs : bool) i pathn op j v d :
   PatchDefs.decode_patch_operation patch cs = Ok op -> op = PatchDefs.ADD \/ op = PatchDefs.REPLACE ->
   CompareDefs.get_object_item patch (Some PatchDefs.s_value) cs = Some (j, v) ->
   PatchDefs.cJSON_Duplicate v = Some d ->
-  PatchDefs.apply_patch object patch cs = Ok (0, PatchDefs.set_key d None, patch).
+  PatchDefs.apply_patch object patch cs = Ok (0, PatchDefs.unnamed d, patch).
 Proof.
   intros H1 H2 H3 H4 H5 H6 H7. unfold PatchDefs.apply_patch. rewrite H1, H2. cbn [negb]. rewrite H4. cbn [bind].
   rewrite H3, H6. destruct H5 as [-> | ->]; cbn [PatchDefs.is_nil andb orb]; by rewrite H7.
